@@ -6,42 +6,7 @@ props = {}
 for line in open('/verif/properties.jsonl'):
     p = json.loads(line); props[p['id']] = p
 
-CLAIMED = {
- # id: (engine, technique, level text, level note)
- "C04": ("A", "deterministic simulation of producers/consumer on each Mailbox under a seeded scheduler; porcupine linearizability + conservation oracles",
-         "Seeded search over interleavings (uniform/sticky/PCT schedules, stalls, pool policies, small-segment build variant) of 2-4 producers and one consumer on all nine mailbox implementations; every recorded history is checked for linearizability against the mailbox's sequential model, with conservation, same-mailbox and capacity checks. Sampling, not proof.",
-         "Trusts the instrumenter to put a scheduling point before every atomic/mutex/channel operation of package actor and the Workiva ring buffer; capacities of ring-based mailboxes are generated as powers of two (rounding up is documented)."),
- "C05": ("B", "deterministic simulation of the real readyQueue with worker/producer threads under a seeded scheduler; conservation, idle-point and exit oracles",
-         "Seeded search over interleavings of pushes, local re-pushes, bursts that overflow the local ring, steals, parks and close on 2-3 workers, with stock and tiny ring capacities; conservation (each pushed item taken exactly once), idle-point invariant (no parked worker while the global ring holds work), bounded liveness on the fake clock and exit-after-close are checked. Sampling, not proof.",
-         "Workers are harness threads running the real take loop with dummy schedulables; the dispatcher's worker goroutines themselves are exercised by the single-node scenarios."),
- "C01": ("C", "deterministic simulation of a real actor system under a seeded scheduler; online handler-overlap detector in scripted probe actors",
-         "Seeded search over interleavings of 2-4 concurrent senders, dispatcher workers (2-4), throughput budgets 1-32, supervisor restarts/resumes, explicit Restart/Reinstate and millisecond passivation on every mailbox type; each probe flags on the spot a second handler invocation entering while one is in progress. Sampling, not proof.",
-         "Grains and reentrant replies are covered by the C31/C16 scenarios' own overlap detectors; BoundedMailbox is left out of runs with stops (see DESIGN.md observations)."),
- "C02": ("C", "deterministic simulation of a real actor system; exactly-once and bounded-liveness oracles over the recorded event log",
-         "Seeded search over interleavings of concurrent Tell/BatchTell producers with the consumer turn and the drain/idle transition on every mailbox type; accepted-message multiset must equal the handled multiset, nothing handled twice, and everything accepted must be handled within 5 s of simulated time after traffic stops (a run that stops making progress is a violation). Sampling, not proof.",
-         "Strict configuration only (actors stay alive, no restarts); stash/unstash multiplicity is checked by C13."),
- "C03": ("C", "deterministic simulation of a real actor system; per-sender order oracle over the event log",
-         "Seeded search over interleavings of 2-4 sender goroutines using Tell and BatchTell to actors with every FIFO mailbox type; for each (sender goroutine, receiver incarnation) the handled sequence numbers must be strictly increasing. Sampling, not proof.",
-         "Stash/unstash relative order is checked by the C13 scenario."),
- "C06": ("C", "deterministic simulation of a real actor system; lifecycle grammar oracle per incarnation plus online PostStop/Receive overlap detector",
-         "Seeded search over interleavings of message traffic (handlers that take simulated time) with nine stop paths issued from external goroutines and from other actors' turns; per incarnation PreStart must finish before the first Receive, PostStop runs at most once, no Receive starts after PostStop started, and PostStop never overlaps Receive on another goroutine. Known deviations of the external stop paths are listed in known_findings.jsonl with one signature per path and class. Sampling, not proof.",
-         "BoundedMailbox is left out (see DESIGN.md observations)."),
- "C23": ("S", "deterministic simulation of the real proto client/server over simulated connections that fragment, delay, truncate and corrupt; round-trip and robustness oracles",
-         "Seeded search over message kinds of the internal wire schema, metadata maps up to the 65535-byte wire limit, deadlines, batching, fragmentation and latency: what the real server decodes and what the real client gets back must equal what was sent (message, type name, headers, deadline re-based by the transit time, order). Malformed half: truncation at any byte, corrupted and oversized length fields and flipped bytes must end in an error or a closed connection, never a panic (server panic handler, in-memory decoder under recover) and never an allocation beyond the frame limit (TotalAlloc delta). Sampling, not proof.",
-         "The algebraic single-frame round trip is exercised only as a by-product; TLS and the real accept loop are not exercised."),
- "C24": ("S", "deterministic simulation of compressed connections over simulated byte streams with fragmentation, resets and early close; prefix/equality oracle",
-         "Seeded search over write sizes 0..256 KiB (compressible and random), read buffer sizes, fragmentation and connection endings (clean close, reset mid-stream, close with unread data) for none/gzip/zstd/brotli, with consecutive connections reusing the pooled encoders/decoders: bytes read must be a prefix of bytes written and equal after a clean close. Sampling, not proof.",
-         "The compression libraries themselves are third-party code running un-instrumented (single-threaded configuration)."),
- "C27": ("D", "deterministic simulation of two real actor systems with remoting over a simulated network; order / at-most-once / no-silent-drop oracles over the shared event log and the sender's dead letters",
-         "Seeded search over interleavings of 1-4 concurrent callers with the per-destination coalescer (stock batch 256 and a build variant with batch 4), connection resets, stalls past the flush timeout, refused dials, latency, fragmentation and the sender's system stopping with messages pending: per caller the delivered tags are an order-preserving duplicate-free subsequence, and every accepted tell is delivered or appears in the sender's dead letters within 30 s of simulated time. Sampling, not proof.",
-         "Runs in which the sender's system stops keep the network healthy, because goakt deliberately does not dead-letter batch failures once shutdown has begun."),
- "C28": ("D", "deterministic simulation of two real actor systems with remoting over a simulated network; reply-identity oracle",
-         "Seeded search over interleavings of 2-6 concurrent RemoteAsk / RemoteBatchAsk callers over the pooled connections with responder latencies, timeouts drawn around them, latency that reorders pooled connections, resets and stalls: every successful ask returns the reply carrying its own request tag, batch responses come back in request order. Sampling, not proof.",
-         "-"),
- "C29": ("D", "deterministic simulation of two real actor systems with remoting over a simulated network; per-message header oracle",
-         "Same runs as C28 with a ContextPropagator that injects one unique header per call (asks, tells, coalesced batches mixing callers, stock and batch-4 build variants): the header restored for message tag t on the receiving node must be the one injected for t. Sampling, not proof.",
-         "-"),
-}
+CLAIMED = {k:(v['engine'],v['technique'],v['text'],v['note']) for k,v in json.load(open('/verif/claims.json')).items()}
 NA = {
  "C22": "pure function of a call count under a mutex: no schedule, clock, I/O or fault can change the answer, so a simulator has nothing to search",
  "C25": "serialise/deserialise of one value and a type-keyed lookup are pure functions; no goroutine, timer or I/O takes part",
@@ -87,11 +52,16 @@ m = {
    "add_only": False,
  },
  "engines": [
-   {"name": "A", "path": "scen/c04_mailbox.go", "serves_properties": ["C04"], "kind_free_text": "mailbox micro-simulation: harness producer/consumer threads on the real Mailbox implementations under the simrt scheduler inside a synctest bubble"},
-   {"name": "B", "path": "harness/actor/zz_verif_rq.go", "serves_properties": ["C05"], "kind_free_text": "ready-queue micro-simulation compiled into package actor through the build overlay"},
-   {"name": "S", "path": "scen/c23_c24_stream.go", "serves_properties": ["C23", "C24"], "kind_free_text": "byte-stream simulation: real internal/net client, server, codec and compression wrappers over simnet connections"},
-   {"name": "D", "path": "scen/remote.go", "serves_properties": ["C27", "C28", "C29"], "kind_free_text": "two-node remoting simulation: two real actor systems over simnet behind hook H1"},
-   {"name": "C", "path": "scen/sys.go", "serves_properties": ["C01", "C02", "C03", "C06"], "kind_free_text": "single-node simulation: a real actor system (dispatcher, mailboxes, supervision, passivation, scheduler) with scripted probe actors, every goroutine under the simrt scheduler, fake clock"},
+   {"name": e, "path": path, "serves_properties": sorted(k for k,v in CLAIMED.items() if v[0]==e), "kind_free_text": txt}
+   for e,path,txt in [
+    ("A", "scen/c04_mailbox.go", "mailbox micro-simulation: harness producer/consumer threads on the real Mailbox implementations under the simrt scheduler inside a synctest bubble"),
+    ("B", "harness/actor/zz_verif_rq.go", "ready-queue micro-simulation compiled into package actor through the build overlay"),
+    ("S", "scen/c23_c24_stream.go", "byte-stream simulation: real internal/net client, server, codec and compression wrappers over simnet connections"),
+    ("D", "scen/remote.go", "two-node remoting simulation: two real actor systems over simnet behind hook H1"),
+    ("C", "scen/sys.go", "single-node simulation: a real actor system (dispatcher, mailboxes, supervision, passivation, scheduler) with scripted probe actors, every goroutine under the simrt scheduler, fake clock"),
+    ("E", "simcluster/simcluster.go", "cluster simulation: the real internal/cluster engine (and, for multi-node scenarios, 2-3 real cluster-enabled actor systems over simnet) on a simulated single-copy registry / membership / pub-sub backend behind hook H2"),
+    ("F", "scen/core.go", "component micro-simulation: client threads on a real concurrent/timed component (event stream, queue, circuit breaker, TTL map) under the simrt scheduler with the fake clock"),
+   ] if any(v[0]==e for v in CLAIMED.values())
  ],
  "checks": checks,
  "not_applicable": na,
